@@ -554,7 +554,7 @@ class MoveGen:
             return ("eff", "local_r", [self.float_e(env), self.float_e(env), self.grid_e(env)])
         if r < 0.8:
             return ("eff", "local_rz", [self.float_e(env), self.grid_e(env)])
-        st = ("eff", "top_hat_cz", [self.grid_e(env), L(Fraction(self.rng.choice([3, 2, 5]))), L(Fraction(self.rng.choice([3, 1, 4])))])
+        st = ("eff", "top_hat_cz", [self.grid_e(env), L(Fraction(self.rng.choice([3, 2, 5, 0]))), L(Fraction(self.rng.choice([3, 1, 4, 0])))])
         if self.rng.random() < self.feat["cz_positional"]:
             st = st + ("positional",)
         return st
@@ -602,7 +602,11 @@ class MoveGen:
         if r < 0.60 and f["devcalls"] and env["dev"]:
             return [self.devcall(env)]
         if r < 0.65 and f["parallel"] and env["dev"]:
-            return [("par", [self.devcall(env) for _ in range(self.rng.randrange(1, 4))])]
+            members = [self.devcall(env) for _ in range(self.rng.randrange(1, 4))]
+            if self.rng.random() < 0.35:
+                # the very same call twice in one group (identical callee, operands and keyword spelling)
+                members.insert(self.rng.randrange(0, len(members) + 1), members[self.rng.randrange(len(members))])
+            return [("par", members)]
         if r < 0.75 and depth > 0:
             c = self.bool_e(env)
             t = self.block(self.sub_env(env), depth - 1, in_fn, self.rng.randrange(1, 4))
